@@ -5,9 +5,13 @@ from vlib import framework as F
 from vlib import streams, gen
 from checks.c10 import template, hx
 from checks import c07
+import os, sys
+sys.path.insert(0, os.path.join(os.path.dirname(os.path.dirname(os.path.abspath(__file__))), "extract"))
+import x8_resort
 
 ASSUMPTIONS = [
     "the sorted name table (D->entry[], _GD_FindField, _GD_InsertSort) is modelled in GdModel.Names.Table and proved consistent for every operation sequence (Props/C15); the tie compares the model's table, name for name and in order, with D->entry[] read through src/internal.h by the harness after sequences of adds, deletes and renames of colliding names",
+    "gd_alter_affixes / gd_fragment_namespace: the re-sort after the codes are replaced is modelled (`reaffix`, ordered insertion for qsort) and proved to restore a strictly sorted table of exactly the new names whenever they are distinct; extractor X8 re-reads _GD_UpdateAffixes and _GD_EntryCmp on every run (every replaced code sets `resort`, the qsort with _GD_EntryCmp follows, _GD_EntryCmp is _GD_strlencmp) and `resort_in_source_is_unconditional` fails when that shape is lost; _GD_UpdateCode itself (how the new name is built) is not modelled",
     "every other clause is judged on the real library after every call of random edit sequences (successful or failed): gd_nentries == length of gd_entry_list for 12 types x 4 flag combinations at top level and under every parent, names unique and look-up-able, the visible list == the full list minus gd_hidden names, value lists aligned with name lists, D->entry[] sorted, reference field an existing RAW field, every field validates or fails with a GetData error, and the sanitizers stay silent (no later call touches a removed entry)",
 ]
 CHECKER_CMD = "cd /verif/lean && lake build GdModel.Props.C15 && lake env lean <generated #print axioms file>"
@@ -61,7 +65,7 @@ def table_script(rng):
 
 
 def run(ctx):
-    ok, lr, infos = F.lean_obligations(ctx, MODULES, [])
+    ok, lr, infos = F.lean_obligations(ctx, MODULES, [lambda: x8_resort.main(C.REPO)])
     gdmodel = C.build_gdmodel()
     try:
         harness = C.build_harness("gdh", ["gdh.c"])
